@@ -120,6 +120,7 @@ type gwOpts struct {
 	VerifyIP      bool     `json:"verify_client_ip"`
 	Redirect      protocol.RedirectFlags
 	IdleTimeout   int `json:"idle_timeout"`
+	TLS           bool `json:"tls,omitempty"` // BIN only: serve TLS with a run-time certificate
 	SendBuf       int `json:"send_buf,omitempty"`
 	ReceiveBuf    int `json:"receive_buf,omitempty"`
 }
